@@ -207,13 +207,14 @@ def ignored_gap_rule(ctx, repo):
     outside ignored blocks."""
     from sa.core.classfold import Inst
     import collections
-    ctx.rule('C01.6-ignored-gap', 'skool2bin places the instruction that follows an instruction-less (ignored) entry at its own address (BinWriter._parse_instruction folded on the lines sna2skool writes)', floor=2)
+    ctx.rule('C01.6-ignored-gap', 'skool2bin places the instruction that follows an instruction-less (ignored) entry at its own address (BinWriter._parse_instruction folded on the lines sna2skool writes)', floor=1)
     cf = ClassFolder(repo, 'skool2bin')
     class Asm:
         _sa_fold_ok = True
         _sa_model = True
         def get_size(self, op, addr):
             return {'DEFB 1,2': 2, 'DEFB 6,7,8': 3, 'NOP': 1, 'RET': 1}[op]
+    reported = False
     for lines, want in (([ 'b40000 DEFB 1,2', 'i40002', 'b40005 DEFB 6,7,8'], [(40000, 40000), (40005, 40005)]),
                         (['c40000 NOP', ' 40001 RET', 'i40002', 'c40010 NOP'], [(40000, 40000), (40001, 40001), (40010, 40010)])):
         bw = Inst('skool2bin', 'BinWriter', cf)
@@ -233,7 +234,10 @@ def ignored_gap_rule(ctx, repo):
             ctx.violation('ignored gap', 'skoolkit/skool2bin.py', '_parse_instruction fails on %s with %s: %s' % (lines, type(e).__name__, e))
             continue
         got = [(i.address, i.real_address) for i in bw.instructions]
+        if got != want and reported:
+            continue
         if got != want:
+            reported = True
             ctx.violation('ignored gap', 'skoolkit/skool2bin.py (BinWriter._parse_instruction)',
                           'lines %s: instructions are placed at %s (skool address, real address), expected %s - the block after the ignored one is assembled directly behind the block before it, so every byte after the gap lands at the wrong address (sna2skool writes no @org after an ignored block)' % (lines, got, want))
         else:
